@@ -441,12 +441,12 @@ def part_construction(pf, prog=None):
         pf.node = _exp(prog, pf, local_only=True)
     for n in ast.walk(pf.node):
         if isinstance(n, ast.DictComp) and isinstance(n.value, ast.Call) and dotted(n.value.func) == "PartFactory":
-            return n.key, n.value, n.generators[0].iter
+            return n.key, n.value, n.generators[0].iter, pf.node
     for loop in [n for n in ast.walk(pf.node) if isinstance(n, ast.For)]:
         for n in ast.walk(loop):
             if isinstance(n, ast.Assign) and isinstance(n.value, ast.Call) and dotted(n.value.func) == "PartFactory" \
                     and isinstance(n.targets[0], ast.Subscript):
-                return n.targets[0].slice, n.value, loop.iter
+                return n.targets[0].slice, n.value, loop.iter, pf.node
     return None
 
 
@@ -988,7 +988,7 @@ def run(ctx):
     if pc is None:
         ctx.error("_PackageLoader._parts", "construction of the parts (PartFactory call keyed by the part name) not recognised")
     else:
-        kexpr, c, _it = pc
+        kexpr, c, _it = pc[:3]
         kv = norm(kexpr, al)
         pval = P_.value_aliases(pf.node)
         args = [P_.full(a, pval) for a in c.args] + [P_.full(k.value, pval) for k in c.keywords]
